@@ -18,6 +18,23 @@ space) legitimately depend on the split — "  " in one read is one notification
 stream-open / stanza / stream-close events: `events` removes them on both sides of every equation.
 
 All theorems quantify over every parser, every stream and every chunk list of any length.
+
+## When fixes/C03-utf8-stateful-decode.diff is applied to the library
+
+1. in `Qx/Model/C03Framing.lean` change the one line `def feedBytesCode … := feedBytesPerChunk P` to
+   `… := feedBytesStateful P` (the driver follows; the correspondence run then compares the patched code with the
+   stateful model — validated once against a patched build: 0 mismatches on all lines, while the per-chunk model
+   mismatches);
+2. here, `C03_defect_split_in_multibyte`, `C03_defect_zwnbsp_at_read_start`, the two `example`s recording today's
+   corrupted output on the witnesses (now false: `decide` reports it) and `framing_bytes_split_independent_partial`
+   (superseded) stop compiling — this was tried: exactly these five fail — delete them and add
+
+       theorem framing_bytes_split_independent (P) (items) (hP : PrefixOracle P items) (chunks) (cps)
+           (hvalid : decode? chunks.flatten = some cps) (htext : toChars cps = textOf items) :
+           events (runBytes (feedBytesCode P) chunks) = events (runBytes (feedBytesCode P) [chunks.flatten]) :=
+         (framing_bytes_split_independent_stateful P items hP chunks cps hvalid htext).1
+
+   which is the full byte-level property about the code; everything else stays.
 -/
 namespace Qx.C03
 open Qx.Utf8
